@@ -273,14 +273,14 @@ func genExtras(r *hx.Rand) []field {
 }
 
 type serOpts struct {
-	lead     int    // blank lines before the first stanza
-	gapMax   int    // blank lines between stanzas: 1..gapMax
-	tail     string // after the last stanza's final "\n": "\n" (usual), "" or "\n\n\n"
-	noFinal  bool   // no "\n" after the very last line
-	shuffle  bool
-	keyCase  bool // vary the case of field names
-	sepVar   bool // vary white space after the colon and at line ends
-	crlf     bool
+	lead    int    // blank lines before the first stanza
+	gapMax  int    // blank lines between stanzas: 1..gapMax
+	tail    string // after the last stanza's final "\n": "\n" (usual), "" or "\n\n\n"
+	noFinal bool   // no "\n" after the very last line
+	shuffle bool
+	keyCase bool // vary the case of field names
+	sepVar  bool // vary white space after the colon and at line ends
+	crlf    bool
 }
 
 func genSerOpts(r *hx.Rand) serOpts {
